@@ -520,9 +520,31 @@ func c20Helpers(p *core.Program, r *core.Report) {
 		pos := p.Pos(fi.Decl.Pos())
 		var probs []string
 		evals := 0
+		// unexported helpers of the package (a shared nil/empty prelude, say) are interpreted too
+		callee := func(call *ast.CallExpr) ([]types.Object, *ast.BlockStmt) {
+			id, ok := ast.Unparen(call.Fun).(*ast.Ident)
+			if !ok {
+				return nil, nil
+			}
+			fnObj, _ := info.Uses[id].(*types.Func)
+			if fnObj == nil || fnObj.Exported() {
+				return nil, nil
+			}
+			cfi := p.FuncOf(fnObj)
+			if cfi == nil || cfi.Decl.Body == nil || cfi.Pkg != fi.Pkg {
+				return nil, nil
+			}
+			var ps []types.Object
+			for _, f := range cfi.Decl.Type.Params.List {
+				for _, n := range f.Names {
+					ps = append(ps, info.Defs[n])
+				}
+			}
+			return ps, cfi.Decl.Body
+		}
 		if !isSlice {
 			for _, w := range []int{-1, 0, 1} {
-				ev := &ordEval{info: info, side: side, ord: map[string]int{"v": w}, ints: map[types.Object]int64{}, bools: map[string]bool{}}
+				ev := &ordEval{info: info, side: side, ord: map[string]int{"v": w}, ints: map[types.Object]int64{}, bools: map[string]bool{}, callee: callee}
 				res, ret := ev.run(fi.Decl.Body.List)
 				evals++
 				if ev.err != "" || !ret {
@@ -548,7 +570,7 @@ func c20Helpers(p *core.Program, r *core.Report) {
 							continue
 						}
 						ev := &ordEval{info: info, side: side, ord: map[string]int{"elem": w, "slice": 0}, ints: map[types.Object]int64{}, bools: map[string]bool{},
-							slices: map[string]absSlice{"l:slice": ls.s, "r:slice": rs.s}}
+							slices: map[string]absSlice{"l:slice": ls.s, "r:slice": rs.s}, callee: callee}
 						out, ret := ev.run(fi.Decl.Body.List)
 						evals++
 						if ev.err != "" || !ret {
